@@ -77,7 +77,7 @@ func ValueToJson(dst []byte, t octosql.Type, value octosql.Value) []byte {
 	case octosql.TypeIDString:
 		return appendJSONString(dst, value.Str)
 	case octosql.TypeIDTime:
-		return appendJSONString(dst, value.Time.Format(time.RFC3339))
+		return appendJSONString(dst, value.Time.Format(time.RFC3339Nano))
 	case octosql.TypeIDDuration:
 		return appendJSONString(dst, value.Duration.String())
 	case octosql.TypeIDList:
